@@ -104,6 +104,7 @@ def main(ctx, replay=None):
     for t in ("controller", "replica"):
         cases += gen.matrix(t, full=not quick)
         cases += gen.per_state(t)
+        cases += gen.degenerate(t, all_states=not quick)
         cases += gen.repeats(t)
         cases += gen.scenarios(t, 100 if quick else 2000)
         cases += gen.random_cases(t, 350 if quick else 6000)
